@@ -26,7 +26,10 @@ S3Last == IF Indexed = {} THEN -1 ELSE CHOOSE m \in {o.last : o \in Indexed} : \
 C01_AckedDurable == \A b \in acked : InS3(b)
 
 C02_Unique == \A a, b \in acked : a.id # b.id => (Last(a) < b.base \/ Last(b) < a.base)
-C02_Monotone == ~nextRegressed
+\* the log's next offset never moves backwards, and the records of every stored segment carry strictly increasing offsets in
+\* append order (a payload of several concatenated batches must not leave a later batch with the client's own base offset)
+StoredInOrder == \A o \in Indexed : \A j \in 1..(Len(o.batches) - 1) : Last(o.batches[j]) < o.batches[j + 1].base
+C02_Monotone == ~nextRegressed /\ StoredInOrder
 \* no hole between two acknowledged batches: a hole would start right after the end of a stored batch (or of a itself), so only
 \* those offsets need to be looked at (a batch may claim a million offsets)
 StoredEnds == UNION {{Last(o.batches[j]) + 1 : j \in 1..Len(o.batches)} : o \in Indexed}
